@@ -39,7 +39,7 @@ type capCall struct {
 // capRoute is a harness route.Route: the filter is a real matcher.Matcher, the sink is a recorder.
 type capRoute struct {
 	key   string
-	m     matcher.Matcher
+	m     *matcher.Matcher // replaced wholesale (copy-on-write), like the real routes' config snapshot
 	Calls []capCall
 	Hook  func(buf []byte) // optional, runs inside Dispatch
 }
@@ -50,8 +50,20 @@ func (c *capRoute) Dispatch(buf []byte) {
 		c.Hook(buf)
 	}
 }
-func (c *capRoute) Match(s []byte) bool      { return c.m.Match(s) }
-func (c *capRoute) Snapshot() route.Snapshot { return route.Snapshot{Matcher: c.m, Type: "capture", Key: c.key} }
+func (c *capRoute) Match(s []byte) bool {
+	m := c.m
+	if m == nil {
+		return true
+	}
+	return m.Match(s)
+}
+func (c *capRoute) Snapshot() route.Snapshot {
+	var m matcher.Matcher
+	if c.m != nil {
+		m = *c.m
+	}
+	return route.Snapshot{Matcher: m, Type: "capture", Key: c.key}
+}
 func (c *capRoute) Key() string              { return c.key }
 func (c *capRoute) Flush() error             { return nil }
 func (c *capRoute) Shutdown() error          { return nil }
@@ -139,7 +151,7 @@ func buildTable(s *simrt.Sim, nw *simnet.Net, tp *TablePlan) (*builtTable, error
 			return nil, err
 		}
 		if r.Type == "capture" {
-			c := &capRoute{key: r.Key, m: m}
+			c := &capRoute{key: r.Key, m: &m}
 			bt.Caps[ri] = c
 			bt.T.AddRoute(c)
 			bt.Routes = append(bt.Routes, c)
